@@ -54,9 +54,15 @@ for it in range(count):
     envn = core.StepEnvNumpy(s, 0, tick, 1000)
     centre = rnd.randrange(30, 200)
     steps = rnd.randrange(1, 5)
+    # a fifth of the books are sparse and sit at the ends of the price range: bids at price 0 and a few ticks above,
+    # asks at 2^32-1 and a few ticks below (when the tick divides 2^32-1), some of the orders with volume 0 (such an
+    # order is accepted, stays active and is counted at its level); nothing crosses in these books
+    sparse = rnd.random() < 0.2
+    modified = set()          # orders of `env` whose volume was changed by a modification (not by trades)
+    top = (2 ** 32 - 1) if (2 ** 32 - 1) % tick == 0 else None
     for st in range(steps):
         # every fourth step (after the first) is idle: nothing is submitted at all
-        k = 0 if (st > 0 and rnd.random() < 0.25) else rnd.randrange(2, 12)
+        k = 0 if (st > 0 and rnd.random() < 0.25) else (rnd.randrange(1, 5) if sparse else rnd.randrange(2, 12))
         sides, vols, trs, prices = [], [], [], []
         for _ in range(k):
             bid = rnd.random() < 0.5
@@ -66,12 +72,21 @@ for it in range(count):
             if rnd.random() < 0.15:
                 price = (centre + (2 if bid else -2)) * tick          # crossing order: trades
             vol = rnd.randrange(1, 40) + (100 if bid else 0)
+            if sparse:
+                j = rnd.choice([0, 0, 1, 2, 11])
+                price = j * tick if bid else ((top - j * tick) if top is not None else (10 ** 6 + j) * tick)
+                if rnd.random() < 0.4:
+                    vol = 0
             env.place_order(bid, vol, rnd.randrange(1000), price=price)
             sides.append(bid); vols.append(vol); trs.append(7); prices.append(price)
         if k:
             envn.submit_limit_orders((np.array(sides), np.array(vols, dtype=np.uint32), np.array(trs, dtype=np.uint32), np.array(prices, dtype=np.uint32)))
         if k and rnd.random() < 0.3 and env.get_orders():
             env.cancel_order(rnd.randrange(len(env.get_orders())))
+        if sparse and rnd.random() < 0.5 and env.get_orders():
+            mid_ = rnd.randrange(len(env.get_orders()))
+            env.modify_order(mid_, new_vol=0)     # stays active with nothing left
+            modified.add(mid_)
         env.step(); envn.step()
         states += 1
         for name, e, l1m, l2m in (("StepEnv", env, "level_1_data_array", "level_2_data_array"), ("StepEnvNumpy", envn, "level_1_data", "level_2_data")):
@@ -137,6 +152,8 @@ for it in range(count):
                 # volumes: start_vol - vol must equal the traded volume of the order in the log
                 for j, o in enumerate(orders):
                     traded = sum(t[3] for t in trades if t[4] == j or t[5] == j)
+                    if name == "StepEnv" and j in modified:
+                        continue
                     if odf["start_vol"][j] - odf["vol"][j] != traded:
                         fails.append("orders_to_dataframe: start_vol - vol = %d for order %d but the trade log accounts for %d (columns mislabelled?) (%s)" % (odf["start_vol"][j] - odf["vol"][j], j, traded, ctx)); break
             tdf = dp.trades_to_dataframe(trades)
